@@ -371,6 +371,9 @@ pub fn parse_proj(definition: &str) -> Result<String, Error> {
         // inversions, and handle directional omissions (omit_fwd, omit_inv)
         let mut geodesy_step = elements.join(" ").trim().to_string();
         if !geodesy_step.is_empty() {
+            // A step giving its own `a` and `rf` has its own ellipsoid, whatever
+            // `ellps` the pipeline globals provide: tidy it up before they arrive
+            tidy_proj(&mut elements)?;
             for (j, global) in pipeline_globals.split_whitespace().enumerate() {
                 elements.insert(1 + j, global.to_string());
             }
